@@ -1,5 +1,7 @@
 import Zstd.Gen.Reset
 import Zstd.Model.FrameDecoder
+import Zstd.Proofs.FrameDecoderStandIn
+import Zstd.Proofs.FrameFaithful
 /-
 C07 — a reused decoder behaves exactly like a fresh one.
 
@@ -17,8 +19,11 @@ That each Rust statement really clears what the model says it clears is tied by 
 (engines `reuse`, `hostile`: hook state dump after reset on reused vs fresh decoders, and full
 transcripts of probe frames that need a clean state).
 -/
+set_option linter.unusedSectionVars false
 namespace Zstd.Props.C07
 open Zstd Zstd.Model
+
+variable {σ : Type} [BlockDec σ] [BlockContract σ]
 
 def covers (fields reset exempt : List String) : Bool :=
   fields.all fun f => reset.contains f || exempt.contains f
@@ -42,7 +47,7 @@ theorem dict_seeds : Gen.dictSeeds = ["fse", "huf.table", "offset_hist", "buffer
 /-- the state `reset` leaves does not depend on the state it started from: whenever `reset`
 replaces the state at all (success, or a missing dictionary) it installs the value computed by
 `resetCore` from the source, the dictionaries and the limit alone -/
-theorem reset_independent_of_state (d : Decoder) (st : Option FState) (s : Src) :
+theorem reset_independent_of_state (d : Decoder σ) (st : Option (FState σ)) (s : Src) :
     ({ d with state := st }.reset s).2 = (d.reset s).2 ∧
     (∀ st' o, resetCore d.dicts d.maxWindow s = .replace st' o →
       ({ d with state := st }.reset s).1 = (d.reset s).1) := by
@@ -52,7 +57,7 @@ theorem reset_independent_of_state (d : Decoder) (st : Option FState) (s : Src) 
   | replace st' o => simp [h]
 
 /-- `reset` reports `.ok` only when it replaced the state -/
-theorem reset_ok_replaces (d : Decoder) (s rest : Src) (h : (d.reset s).2 = .ok rest) :
+theorem reset_ok_replaces (d : Decoder σ) (s rest : Src) (h : (d.reset s).2 = .ok rest) :
     ∃ st', resetCore d.dicts d.maxWindow s = .replace st' (.ok rest) := by
   unfold Decoder.reset at h
   cases hc : resetCore d.dicts d.maxWindow s with
@@ -61,9 +66,9 @@ theorem reset_ok_replaces (d : Decoder) (s rest : Src) (h : (d.reset s).2 = .ok 
 
 /-- on every path where `reset` reports success the new state is the one a decoder that was never
 used would have -/
-theorem reset_eq_fresh (d : Decoder) (s : Src) (rest : Src) (h : (d.reset s).2 = .ok rest) :
-    (d.reset s).1 = (({ dicts := d.dicts, maxWindow := d.maxWindow } : Decoder).reset s).1 ∧
-    (({ dicts := d.dicts, maxWindow := d.maxWindow } : Decoder).reset s).2 = .ok rest := by
+theorem reset_eq_fresh (d : Decoder σ) (s : Src) (rest : Src) (h : (d.reset s).2 = .ok rest) :
+    (d.reset s).1 = (({ dicts := d.dicts, maxWindow := d.maxWindow } : Decoder σ).reset s).1 ∧
+    (({ dicts := d.dicts, maxWindow := d.maxWindow } : Decoder σ).reset s).2 = .ok rest := by
   obtain ⟨st', hc⟩ := reset_ok_replaces d s rest h
   unfold Decoder.reset
   simp only [hc]
@@ -71,26 +76,26 @@ theorem reset_eq_fresh (d : Decoder) (s : Src) (rest : Src) (h : (d.reset s).2 =
 
 /-- operations never change the registered dictionaries or the limit (so "the same dictionaries
 registered" is a property of the decoder object, not of its history) -/
-theorem decodeBlocks_keeps_config (d : Decoder) (s : Src) (strat : Strategy) :
+theorem decodeBlocks_keeps_config (d : Decoder σ) (s : Src) (strat : Strategy) :
     (d.decodeBlocks s strat).1.dicts = d.dicts ∧ (d.decodeBlocks s strat).1.maxWindow = d.maxWindow := by
   unfold Decoder.decodeBlocks
   cases d.state with
   | none => simp
   | some st => simp only []; split <;> simp
 
-theorem collect_keeps_config (d : Decoder) : d.collect.1.dicts = d.dicts ∧ d.collect.1.maxWindow = d.maxWindow := by
+theorem collect_keeps_config (d : Decoder σ) : d.collect.1.dicts = d.dicts ∧ d.collect.1.maxWindow = d.maxWindow := by
   unfold Decoder.collect
   cases d.state with
   | none => simp
   | some st => simp only []; split <;> (try split) <;> simp
 
-theorem read_keeps_config (d : Decoder) (n : Nat) : (d.read n).1.dicts = d.dicts ∧ (d.read n).1.maxWindow = d.maxWindow := by
+theorem read_keeps_config (d : Decoder σ) (n : Nat) : (d.read n).1.dicts = d.dicts ∧ (d.read n).1.maxWindow = d.maxWindow := by
   unfold Decoder.read
   cases d.state with
   | none => simp
   | some st => simp
 
-theorem reset_keeps_config (d : Decoder) (s : Src) : (d.reset s).1.dicts = d.dicts ∧ (d.reset s).1.maxWindow = d.maxWindow := by
+theorem reset_keeps_config (d : Decoder σ) (s : Src) : (d.reset s).1.dicts = d.dicts ∧ (d.reset s).1.maxWindow = d.maxWindow := by
   unfold Decoder.reset
   cases resetCore d.dicts d.maxWindow s <;> simp
 
@@ -101,13 +106,13 @@ inductive HistOp where
   | collect
   | read (n : Nat)
 
-def applyHist (d : Decoder) : HistOp → Decoder
+def applyHist (d : Decoder σ) : HistOp → Decoder σ
   | .reset s => (d.reset s).1
   | .blocks s strat => (d.decodeBlocks s strat).1
   | .collect => d.collect.1
   | .read n => (d.read n).1
 
-theorem applyHist_keeps_config (d : Decoder) (op : HistOp) :
+theorem applyHist_keeps_config (d : Decoder σ) (op : HistOp) :
     (applyHist d op).dicts = d.dicts ∧ (applyHist d op).maxWindow = d.maxWindow := by
   cases op with
   | reset s => exact reset_keeps_config d s
@@ -115,7 +120,7 @@ theorem applyHist_keeps_config (d : Decoder) (op : HistOp) :
   | collect => exact collect_keeps_config d
   | read n => exact read_keeps_config d n
 
-theorem history_keeps_config (d : Decoder) (h : List HistOp) :
+theorem history_keeps_config (d : Decoder σ) (h : List HistOp) :
     (h.foldl applyHist d).dicts = d.dicts ∧ (h.foldl applyHist d).maxWindow = d.maxWindow := by
   induction h generalizing d with
   | nil => simp
@@ -130,11 +135,11 @@ without dictionaries, larger or smaller windows — a successful `reset` on the 
 exactly the decoder a fresh object with the same dictionaries and limit would be in; since every
 later operation is a function of the decoder value, everything observable afterwards (bytes,
 checksums, consumed count, success or error) is identical. -/
-theorem reuse_eq_fresh (d0 : Decoder) (hist : List HistOp) (probe rest : Src)
+theorem reuse_eq_fresh (d0 : Decoder σ) (hist : List HistOp) (probe rest : Src)
     (h : ((hist.foldl applyHist d0).reset probe).2 = .ok rest) :
     ((hist.foldl applyHist d0).reset probe).1 =
-      (({ dicts := d0.dicts, maxWindow := d0.maxWindow } : Decoder).reset probe).1 ∧
-    (({ dicts := d0.dicts, maxWindow := d0.maxWindow } : Decoder).reset probe).2 = .ok rest := by
+      (({ dicts := d0.dicts, maxWindow := d0.maxWindow } : Decoder σ).reset probe).1 ∧
+    (({ dicts := d0.dicts, maxWindow := d0.maxWindow } : Decoder σ).reset probe).2 = .ok rest := by
   have cfg := history_keeps_config d0 hist
   have := reset_eq_fresh (hist.foldl applyHist d0) probe rest h
   rw [cfg.1, cfg.2] at this
@@ -142,9 +147,9 @@ theorem reuse_eq_fresh (d0 : Decoder) (hist : List HistOp) (probe rest : Src)
 
 /-- a frame that names a dictionary the decoder was not given: the error, and the (dictionary-less)
 state left behind, are again independent of the history -/
-theorem missing_dict_independent_of_history (d0 : Decoder) (hist : List HistOp) (probe : Src) (id : Nat)
+theorem missing_dict_independent_of_history (d0 : Decoder σ) (hist : List HistOp) (probe : Src) (id : Nat)
     (h : ((hist.foldl applyHist d0).reset probe).2 = .err (.dictNotProvided id)) :
-    (({ dicts := d0.dicts, maxWindow := d0.maxWindow } : Decoder).reset probe).2 = .err (.dictNotProvided id) := by
+    (({ dicts := d0.dicts, maxWindow := d0.maxWindow } : Decoder σ).reset probe).2 = .err (.dictNotProvided id) := by
   have cfg := history_keeps_config d0 hist
   unfold Decoder.reset at h ⊢
   rw [cfg.1, cfg.2] at h
@@ -154,6 +159,30 @@ theorem missing_dict_independent_of_history (d0 : Decoder) (hist : List HistOp) 
   | replace st' o => simp [hc] at h ⊢; exact h
 
 /-- non-vacuity: a real 13-byte frame (raw block "abcd") resets successfully on a fresh decoder -/
-example : (({} : Decoder).reset [0x28, 0xB5, 0x2F, 0xFD, 0x00, 0x00, 0x21, 0, 0, 97, 98, 99, 100]).2.isOk = true := by decide
+example : (({} : DecA).reset [0x28, 0xB5, 0x2F, 0xFD, 0x00, 0x00, 0x21, 0, 0, 97, 98, 99, 100]).2.isOk = true := by decide
+
+
+/-! ### instance B: the decoder the drivers run (faithful block decoder, Model/FrameFaithful.lean)
+
+The frame-level model starts every frame from `BlockDec.fresh` (= `DecoderScratch::new`, `{}` for
+instance B); the code calls `DecoderScratch::reset` on the scratch it has (`Blk.Scratch.reset`).  The
+two agree on every scratch whose three FSE tables still have the alphabets `FSETable::new` gave them —
+`max_symbol` is the one field `FSETable::reset` keeps (`reset_covers_fseTable` above) and no decoding
+step writes it (`Blk.decompressBlock_alphabets`, Proofs/BlockNoFault.lean). -/
+
+theorem faithful_reset_eq_fresh (s : Blk.Scratch)
+    (h1 : s.fse.offsets.maxSymbol = Gen.maxOffsetCode)
+    (h2 : s.fse.literalLengths.maxSymbol = Gen.maxLiteralLengthCode)
+    (h3 : s.fse.matchLengths.maxSymbol = Gen.maxMatchLengthCode) :
+    s.reset = (BlockDec.fresh : Blk.Scratch) := by
+  simp only [Blk.Scratch.reset, Fse.DTable.reset, h1, h2, h3]
+  rfl
+
+theorem reuse_eq_fresh_faithful (d0 : DecB) (hist : List HistOp) (probe rest : Src)
+    (h : ((hist.foldl applyHist d0).reset probe).2 = .ok rest) :
+    ((hist.foldl applyHist d0).reset probe).1 =
+      (({ dicts := d0.dicts, maxWindow := d0.maxWindow } : DecB).reset probe).1 ∧
+    (({ dicts := d0.dicts, maxWindow := d0.maxWindow } : DecB).reset probe).2 = .ok rest :=
+  reuse_eq_fresh d0 hist probe rest h
 
 end Zstd.Props.C07
